@@ -430,6 +430,10 @@ def specOn (j : Json) : Except String Json := do
   if kindBad then
     holds := some false
     why := kindWhy
+  -- the other reading of `**` (CPython: int ** non-negative int is an int): an implementation that keeps such a
+  -- power an exact int is not reported either
+  let altKind : Option PK := match f with | .plain e => some (e.pyKind false) | _ => none
+  let mut altOk : Bool := match altKind with | some k => kindOk declared k facts.width | none => false
   let mut idx := 0
   for s in samples do
     let envs ← sampleEnvs f s
@@ -446,6 +450,11 @@ def specOn (j : Json) : Except String Json := do
         | .error _ => pure none
     rows := rows.push (Json.mkObj [("c", optJson cvJson c), ("py", optJson pvJson py), ("cpy", optJson pvJson cpy),
       ("model", optJson cvJson model), ("inq", inq)])
+    if inq && altOk then
+      match cpy, c with
+      | some p, some cv => if !(decide (numEq cv p)) || cv.ctype != declared then altOk := false
+      | some _, none => altOk := false
+      | none, _ => pure ()
     if inq then
       match py with
       | none => pure ()      -- Python raises (ZeroDivisionError): nothing is demanded
@@ -463,6 +472,9 @@ def specOn (j : Json) : Except String Json := do
             valueBad := true; holds := some false
             why := s!"sample {idx}: column holds {(cvJson cv).compress} (declared {declared.name}), Python computes {(pvJson p).compress}" ++ (if kindBad then "; " ++ kindWhy else "")
     idx := idx + 1
+  if holds == some false && altOk then
+    holds := some true
+    why := "accepted under CPython's reading of ** (int ** non-negative int is an int): " ++ why
   return Json.mkObj [("holds", match holds with | some b => Json.bool b | none => Json.null), ("why", why),
     ("mustAccept", facts.mustAccept), ("excluded", facts.excluded), ("rows", Json.arr rows),
     ("kind", toString (repr facts.kind)), ("width", facts.width)]
